@@ -82,6 +82,10 @@ pub enum PasKind {
     Md5Sha256,
     Sha256Md5,
     Unsupported,
+    /// an algorithm the client does not know, then SHA-256 (the list is to be echoed as it was sent)
+    UnknownSha256,
+    /// MD5, then an unknown algorithm with parameters
+    Md5UnknownWithParams,
 }
 
 #[derive(Clone, Copy, Debug, PartialEq, Eq, Hash, serde::Serialize, serde::Deserialize)]
@@ -164,6 +168,8 @@ pub fn pas_list(p: PasKind) -> Option<Vec<(u16, Vec<u8>)>> {
         PasKind::Md5Sha256 => Some(vec![(1, vec![]), (2, vec![])]),
         PasKind::Sha256Md5 => Some(vec![(2, vec![]), (1, vec![])]),
         PasKind::Unsupported => Some(vec![(7, vec![1, 2])]),
+        PasKind::UnknownSha256 => Some(vec![(3, vec![]), (2, vec![])]),
+        PasKind::Md5UnknownWithParams => Some(vec![(1, vec![]), (9, vec![1, 2, 3])]),
     }
 }
 
